@@ -197,7 +197,8 @@ class ShapelyBoundary(BoundaryDomain):
         super().__init__(domain)
         outline = self.domain.outline()
         self.normal_list = self._compute_normals(outline)
-        self.tol = 1.0e-06
+        # single-precision coordinates: the tolerance grows with the size of the polygon
+        self.tol = 1.0e-06 * max(1.0, max(abs(b) for b in self.domain.polygon.bounds))
 
     def __call__(self, **data):
         return self
